@@ -115,6 +115,8 @@ let handle line =
     (match coeffFromHalfByte (set_of set).p_eta (u32 b) with Some c -> string_of_int (int_of_z c) | None -> "rej")
   | [_; "rnp"; rho; _] -> polyout (rejectNTTPoly shake128 (unhex rho))
   | [_; "rbp"; set; rho; _] -> polyout (rejectBoundedPoly shake256 (set_of set).p_eta (unhex rho))
+  | [_; "xm"; set; rho; mu; _] ->
+    String.concat "," (List.map hex_of_poly (expandMask shake256 (set_of set) (unhex rho) (nat_of_int (int_of_string mu))))
   | [_; "sib"; set; rho; _] -> polyout (sampleInBall shake256 (set_of set).p_tau (unhex rho))
   | [_; "par"; set; _] ->
     let p = set_of set in
